@@ -205,3 +205,20 @@ def captured_stdout():
         yield buf
     finally:
         sys.stdout = old
+
+
+_POISON_SIZES = list(range(16, 1025, 16)) + list(range(1536, 32769, 512))
+
+
+def poison_heap(byte):
+    """Fault: the content of uninitialised memory is adversarial. Blocks of many sizes are filled with `byte` and freed, so that
+    numpy's small-block cache and malloc's free lists hand them to the next np.empty of the library (as a float64 0x5A.. is
+    3.8e125, 0xA5.. is -1.2e-128; as an int64 both are far outside any tensor). A result that is correct whatever such memory
+    holds is unaffected."""
+    keep = []
+    for nb in _POISON_SIZES:
+        for _ in range(8 if nb <= 1024 else 2):
+            a = np.empty(nb, dtype=np.uint8)
+            a.fill(byte)
+            keep.append(a)
+    del keep
